@@ -63,7 +63,16 @@ pub fn route_m2s_private_payload(
   let handle = tokio::spawn(async move {
     loop {
       tokio::select! {
-        Ok(outbound) = m2s_payload_rx.recv() => {
+        res = m2s_payload_rx.recv() => {
+          let outbound = match res {
+            Ok(outbound) => outbound,
+            // Some payloads were overwritten before they could be read: carry on with the next one.
+            Err(broadcast::error::RecvError::Lagged(skipped)) => {
+              warn!("private payload router lagged behind: {} payloads dropped", skipped);
+              continue;
+            },
+            Err(broadcast::error::RecvError::Closed) => break,
+          };
           let mod_priv_msg = Message::ModDirect(ModDirectParameters {
             id: None,
             from: router.local_domain(),
